@@ -1,7 +1,7 @@
 (* C13 — property theorems only.  Each is closed by `exact <lemma>` and followed by
    Print Assumptions; the check re-compiles this file on every run. *)
 From Coq Require Import List NArith ZArith Bool.
-From MW Require Import Common.Str C13.Val C13.Gen_classes C13.Model C13.Wf C13.Proofs C13.ProofsRT C13.ProofsId C13.ProofsCanon C13.ProofsApi C13.ModelEdit C13.ProofsEdit.
+From MW Require Import Common.Str C13.Val C13.Gen_classes C13.Model C13.Wf C13.Proofs C13.ProofsRT C13.ProofsId C13.ProofsCanon C13.ProofsApi C13.ModelEdit C13.ProofsEdit C13.ProofsSorted.
 Import ListNotations.
 
 (* Values: VObj c f = instance of metabook class c with attribute map f (the `type` entry is c itself);
@@ -230,3 +230,24 @@ Example C13_example_live :
     exists a b, live_from m1 (firstn n ex_edits) = Some a /\ live_from m1 (firstn (S n) ex_edits) = Some b /\ nf a <> nf b.
 Proof. exact ex_live. Qed.
 Print Assumptions C13_example_live.
+
+(* srt = all maps key-sorted (msorted without its VErr clause).  Every state in the life of a Collection whose inputs
+   have key-sorted maps has key-sorted maps, so its dump is a canonical JSON value ... *)
+Theorem C13_live_canonical : forall kw0 ops m,
+  kw_ok kw0 -> Forall xop_ok ops -> all_vals srt kw0 = true -> forallb xop_srt ops = true ->
+  live_from (new_obj (lower k_Collection) kw0) ops = Some m ->
+  msorted m = true /\ jcanon (to_json m) = true.
+Proof. exact live_msorted. Qed.
+Print Assumptions C13_live_canonical.
+
+(* ... and the printer premise of C13_checksum_over_life reduces to injectivity of json.dumps(sort_keys=True) on canonical
+   JSON values *)
+Theorem C13_checksum_over_life_canon : forall dumps hexH kw0 ops1 ops2 m1 m2,
+  (forall j1 j2, jcanon j1 = true -> jcanon j2 = true -> dumps j1 = dumps j2 -> j1 = j2) ->
+  kw_ok kw0 -> Forall xop_ok ops1 -> Forall xop_ok ops2 ->
+  all_vals srt kw0 = true -> forallb xop_srt ops1 = true -> forallb xop_srt ops2 = true ->
+  live_from (new_obj (lower k_Collection) kw0) ops1 = Some m1 -> live_from m1 ops2 = Some m2 ->
+  (hexH (dumps (to_json m1)) = hexH (dumps (to_json m2)) -> dumps (to_json m1) = dumps (to_json m2)) ->
+  (checksum dumps hexH m1 = checksum dumps hexH m2 <-> nf m1 = nf m2).
+Proof. exact checksum_over_life_canon. Qed.
+Print Assumptions C13_checksum_over_life_canon.
